@@ -16,7 +16,7 @@ META = {
                      "contract of DirectSolve (largest real root) -- its acos/cos/cbrt numerics are NOT verified"],
     "assumptions": ["scalar generic kernels stand for the SSE/NEON variants (same real functions lane-wise)", "N = 3, 4, 5 atoms for the loops (uniform in N)", "floats as reals"],
     "out": ["the quartic solver's numerics and convergence (quartic_equation_solve_exact, solve_cubic_equation)", "float32 cancellation for large offsets from the origin", "the Cython glue _rmsd.pyx (prange, padding, precentered handling)",
-            "SIMD variants (theobald_rmsd_sse.h etc.)", "lprmsd / Munkres", "degenerate inputs where q vanishes (collinear / identical structures): the identity-rotation branch is only checked to return the identity"],
+            "SIMD variants (theobald_rmsd_sse.h etc.)", "lprmsd / Munkres", "the degenerate branch is decided on diagonal M only; repeated largest eigenvalue: see the known finding (point inversion)"],
 }
 
 
@@ -34,6 +34,17 @@ def obligations():
     for s in ("all", "same", "different"):
         o.append(Obl(f"C06.superpose.{s}", "py", H, "superpose_wrapper", ["mdtraj.core.trajectory.Trajectory.superpose"], "2 frames x 4 atoms against frame 1 of a 2-frame reference; atom selections: " + s,
                      "centred selections, traces, displaced copy and final offset; reference untouched", 300, params={"sel": s}))
+    o.append(Obl("C06.degenerate_rotation", "py", H, "degenerate_branch", ["theobald_rmsd.cpp:msdFromMandG (adjugate rows 0..3, identity branch)", "cofactor4"], "diagonal inner-product matrices M = diag(m0, m1, m2), simple largest eigenvalue",
+                 "|q|^2 of adjugate row i equals prod_{j != i} (K_jj - lambda)^2 at lambda = K_ii: with a simple largest eigenvalue some row is usable (180-degree rotations included) and the identity branch is not taken", 300, params={"repeated": False}))
+    o.append(Obl("C06.degenerate_eigenvalue", "py", H, "degenerate_branch", ["theobald_rmsd.cpp:msdFromMandG (identity branch)"], "M = diag(-1,-1,-1): repeated largest eigenvalue (point inversion)",
+                 "the identity rotation is returned only when it is optimal", 300, params={"repeated": True}))
+    for d_ in ("rot40", "rot180"):
+        o.append(Obl(f"C06.small_scale.{d_}", "py", H, "small_scale", ["theobald_rmsd.cpp:msdFromMandG (cutoff on |q|^2)"], "M = s D for a perfectly superposable isotropic pair (" + d_ + "), G_a = G_b = lambda = s, every s in [1e-4, 1] nm^2",
+                     "the identity branch is infeasible: small structures (a water has s ~ 0.01) get their rotation", 300, params={"direction": d_}))
+    TJ = "mdtraj.core.trajectory.Trajectory."
+    o.append(Obl("C06.recenter_after_edit", "xh", "harness.c03", "recenter_after_inplace_edit", [TJ + "center_coordinates", "mdtraj._rmsd (real kernel as observer)"],
+                 "n<=3 frames; centre, edit any one coordinate in place, centre again (once or twice)",
+                 "the trajectory is centred again, the cached traces belong to the current coordinates, md.rmsd(precentered=True) equals the freshly fitted value", 300))
     return o
 
 
